@@ -79,6 +79,16 @@ CHECKS = {
        "a decision on all paths; does not decide that the handling is right, nor exit 0 => fault-free bytes.",
   note="trusted: tables of fallible libc functions / allocators in sa/errflow.py; one reasoned E1 exception",
   technique="static analysis: error-propagation / unused-result / null-check dataflow and must-pass-through rules on LLVM IR"),
+ "C12": dict(
+  text="Static K2 confinement + K10 partial-transfer discipline over all five tools: raw read/write/pread/pwrite and "
+       "stdio data transfers occur only in lib/sqfs/src/io/{file,istream,ostream}.c; at each raw call site: inside a "
+       "loop, EINTR re-enters with unchanged buffer/size/offset, zero leaves the loop, every varying operand "
+       "(loop-carried phi or fill-level field) advances by the result; every sqfs_istream_t consumer advances by an "
+       "amount derived from what get_buffered_data delivered and tests its result; the archive layer treats end of "
+       "input inside a record as an error and compares every read count with the requested size. Decides the retry/"
+       "advance structure on all paths = for all short-count/EINTR sequences; equality of outputs is value-level.",
+  note="trusted: POSIX semantics of short counts and EINTR; the list of raw transfer functions in sa/props/c12.py",
+  technique="static analysis: who-may-call rule + loop/phi (SSA) analysis of transfer loops on LLVM IR"),
 }
 
 NA_DEFAULT = "rules designed in DESIGN.md, not implemented yet (work in progress)"
